@@ -1,5 +1,6 @@
 import Mimic.Catalog
 import Mimic.Extracted.Catalog
+import Mimic.Extracted.LikeCode
 import MimicProofs.Like
 /-!
 # C16 — Catalog answers mirror the application's declared schema exactly
@@ -27,6 +28,18 @@ theorem like_translation_shape :
     Mimic.Extracted.Catalog.likeBranches = ["char == '%' -> parts.append('.*')", "char == '_' -> parts.append('.')", "else -> parts.append(re.escape(char))"] ∧
     Mimic.Extracted.Catalog.likeCompile = "return re.compile(''.join(parts), flags=re.DOTALL)" ∧
     Mimic.Extracted.Catalog.showVariablesMatch = ["regex.fullmatch"] := by decide
+
+/-- **`like_to_regex` as translated from the source builds exactly the model's regex**, for every pattern; hence
+    the code's regex under `fullmatch` accepts a string iff SQL LIKE does -/
+theorem like_to_regex_is_code (p : List Char) : Mimic.Extracted.LikeCode.like_to_regex p = tr p := by
+  induction p with
+  | nil => rfl
+  | cons c cs ih =>
+    simp only [Mimic.Extracted.LikeCode.like_to_regex, List.map_cons, tr] at ih ⊢
+    rw [ih]
+
+theorem code_like_equiv (p s : List Char) : like p s = true ↔ Matches (Mimic.Extracted.LikeCode.like_to_regex p) s := by
+  rw [like_to_regex_is_code]; exact like_regex_equiv p s
 
 /-- a pattern without wildcards matches exactly itself (whole-string match) -/
 theorem like_literal : ∀ (p s : List Char), (∀ c ∈ p, c ≠ '%' ∧ c ≠ '_') → (like p s = true ↔ s = p) := by
